@@ -266,6 +266,89 @@ func genSmtFacts() (string, error) {
 	fmt.Fprintf(&b, "/-- `validNodeKey`: `if size < 2 { return false }`, `lastBits := leftPadding + max(bits.Len8(last), 1)`,\n`return lastBits <= 8 && (size-2)*8+lastBits <= maxBits` — the TOTAL number of key bits is bounded by the tree's key length -/\ndef validNodeKeyBoundsTotalBits : Bool := %v\n", boundOK)
 	fmt.Fprintf(&b, "/-- `VerifyProof` also checks the length of every proof node's value (`validNodeValue`) -/\ndef verifyProofChecksValueLength : Bool := %v\n", valueLen)
 	fmt.Fprintf(&b, "def rootWritesPrefix : Bytes := %s\ndef readOnlyReadsPrefix : Bytes := %s\n", g.BytesLit(prefixes[w]), g.BytesLit(prefixes[r]))
+	// the comparators that order a batch before it is committed, TRANSLATED from their closures:
+	//   Commit():                 sort.Slice(s.operations, func(i, j int) bool { return s.operations[i].Key.cmp(s.operations[j].Key) < 0 })
+	//   sortOperationsByPrefix(): sort.Slice(groups[i],    func(a, b int) bool { return groups[i][a].Key.cmp(groups[i][b].Key) < 0 })
+	// accepted subset: a closure whose body is the single statement `return X.cmp(Y) < 0` with X, Y the two elements
+	translateLess := func(fn, slice string) (string, error) {
+		fd := smtFindFunc(smt, "SMT", fn)
+		if fd == nil {
+			return "", fmt.Errorf("store/smt.go: (*SMT).%s not found", fn)
+		}
+		out, cnt := "", 0
+		var terr error
+		ast.Inspect(fd.Body, func(n ast.Node) bool {
+			call, ok := n.(*ast.CallExpr)
+			if !ok || g.ExprText(call.Fun) != "sort.Slice" || len(call.Args) != 2 {
+				return true
+			}
+			if strings.ReplaceAll(g.ExprText(call.Args[0]), " ", "") != slice {
+				return true
+			}
+			cnt++
+			lit, ok := call.Args[1].(*ast.FuncLit)
+			if !ok || len(lit.Type.Params.List) != 1 || len(lit.Type.Params.List[0].Names) != 2 {
+				terr = fmt.Errorf("%s: comparator is not a two-argument closure", fn)
+				return false
+			}
+			x, y := lit.Type.Params.List[0].Names[0].Name, lit.Type.Params.List[0].Names[1].Name
+			if len(lit.Body.List) != 1 {
+				terr = fmt.Errorf("%s: comparator closure has %d statements; the translator accepts the single statement `return X.cmp(Y) < 0`", fn, len(lit.Body.List))
+				return false
+			}
+			ret, ok := lit.Body.List[0].(*ast.ReturnStmt)
+			if !ok || len(ret.Results) != 1 {
+				terr = fmt.Errorf("%s: comparator closure is not a single return", fn)
+				return false
+			}
+			be, ok := ret.Results[0].(*ast.BinaryExpr)
+			if !ok || be.Op != token.LSS || strings.TrimSpace(g.ExprText(be.Y)) != "0" {
+				terr = fmt.Errorf("%s: comparator is not of the form `… < 0`: %s", fn, g.ExprText(ret.Results[0]))
+				return false
+			}
+			cc, ok := be.X.(*ast.CallExpr)
+			sel, ok2 := cc.Fun.(*ast.SelectorExpr)
+			if !ok || !ok2 || sel.Sel.Name != "cmp" || len(cc.Args) != 1 {
+				terr = fmt.Errorf("%s: comparator does not call key.cmp: %s", fn, g.ExprText(be.X))
+				return false
+			}
+			side := func(e ast.Expr) (string, bool) {
+				t := strings.ReplaceAll(g.ExprText(e), " ", "")
+				switch t {
+				case slice + "[" + x + "].Key":
+					return "ka", true
+				case slice + "[" + y + "].Key":
+					return "kb", true
+				}
+				return "", false
+			}
+			l, okl := side(sel.X)
+			r, okr := side(cc.Args[0])
+			if !okl || !okr {
+				terr = fmt.Errorf("%s: comparator operands are not the two elements: %s", fn, g.ExprText(be.X))
+				return false
+			}
+			out = fmt.Sprintf("decide (cmp %s %s < 0)", l, r)
+			return false
+		})
+		if terr != nil {
+			return "", terr
+		}
+		if cnt != 1 || out == "" {
+			return "", fmt.Errorf("%s: expected exactly one sort.Slice(%s, …)", fn, slice)
+		}
+		return out, nil
+	}
+	seqLess, err := translateLess("Commit", "s.operations")
+	if err != nil {
+		return "", err
+	}
+	parLess, err := translateLess("sortOperationsByPrefix", "groups[i]")
+	if err != nil {
+		return "", err
+	}
+	fmt.Fprintf(&b, "/-- translated from the closure of `sort.Slice(s.operations, …)` in `(*SMT).Commit`; `cmp` is `key.cmp` -/\ndef sequentialSortLess (cmp : List Bool → List Bool → Int) (ka kb : List Bool) : Bool := %s\n", seqLess)
+	fmt.Fprintf(&b, "/-- translated from the closure of `sort.Slice(groups[i], …)` in `(*SMT).sortOperationsByPrefix` (what each worker of CommitParallel receives) -/\ndef parallelSortLess (cmp : List Bool → List Bool → Int) (ka kb : List Bool) : Bool := %s\n", parLess)
 	// valueOpToSMTNode: the leaf of a set commits to crypto.Hash(value) of the key crypto.Hash(key), whatever the value is
 	hashesAlways := false
 	if vo := smtFindFunc(smt, "SMT", "valueOpToSMTNode"); vo != nil {
